@@ -42,3 +42,25 @@ Theorem C20_distance : forall a b : Z,
                   -5 <= d <= 6 /\ (pb - pa - d) mod 12 = 0 /\ from_distance a d = Some (b mod 12).
 Proof. exact C20_proofs.C20_distance. Qed.
 Print Assumptions C20_distance.
+
+(* KeyNoteMapping's accidental counts agree with the circle of fifths: every key has between 0 and 7 accidentals,
+   and the count is the circle-of-fifths distance from C to the key's tonic, clockwise (sharps) or anticlockwise
+   (flats), modulo 12 *)
+Theorem C20_accidentals : forall k : Key,
+  exists t c d, tonic k = Some t /\ accidentals k = Some c /\ get_distance 0 t = Some d /\
+                0 <= c <= 7 /\ ((c - d) mod 12 = 0 \/ (c + d) mod 12 = 0).
+Proof. exact C20_proofs.C20_accidentals. Qed.
+Print Assumptions C20_accidentals.
+
+(* ... and two different keys on the same tonic (the enharmonic pairs B/Cb, F#/Gb, C#/Db) have accidental counts
+   adding up to 12 *)
+Theorem C20_enharmonic_accidentals : forall (a b : Key) (t ca cb : Z),
+  tonic a = Some t -> tonic b = Some t -> a <> b ->
+  accidentals a = Some ca -> accidentals b = Some cb -> ca + cb = 12.
+Proof. exact C20_proofs.C20_enharmonic_accidentals. Qed.
+Print Assumptions C20_enharmonic_accidentals.
+
+(* non-vacuity: B and Cb share the tonic 11 with 5 + 7 accidentals *)
+Example C20_enharmonic_example :
+  tonic K_B = Some 11 /\ tonic K_C_B = Some 11 /\ accidentals K_B = Some 5 /\ accidentals K_C_B = Some 7.
+Proof. vm_compute. repeat split. Qed.
